@@ -33,7 +33,9 @@ def floors(tier):
 
 def gen_cases(tier, seed):
     n = 200 if tier == "quick" else 4000
-    return [{"kind": "history", "profile": ["reuse", "copy", "mixed"][i % 3], "n_ops": [10, 15, 22][i % 3] if tier == "quick" else [15, 30, 45][i % 3], "gc": ["default", "seeded", "every"][(i // 3) % 3], "refs": ["strong", "refetch", "drop"][(i // 9) % 3]} for i in range(n)]
+    scripted = [{"kind": "recreate-script", "profile": "recreate-script", "old": old, "new": new, "via": via, "collect": collect, "stored": stored}
+                for old in ("group", "object", "data") for new in ("group", "object", "data") for via in ("workspace", "parent") for collect in (True, False) for stored in (False, True)]
+    return scripted + [{"kind": "history", "profile": ["reuse", "copy", "mixed"][i % 3], "n_ops": [10, 15, 22][i % 3] if tier == "quick" else [15, 30, 45][i % 3], "gc": ["default", "seeded", "every"][(i // 3) % 3], "refs": ["strong", "refetch", "drop"][(i // 9) % 3]} for i in range(n)]
 
 
 PROFILES = {
@@ -74,7 +76,10 @@ class C06Engine(hist.Engine):
             raise hist.ExpectedRefusal("nothing removed yet")
         self.refs.clear()
         gc.collect()
-        _ = self.ws.objects, self.ws.groups, self.ws.data
+        if self.rng.random() < 0.5:  # reading the listings lets the workspace prune dead registry entries; half of the time it does not happen
+            _ = self.ws.objects, self.ws.groups, self.ws.data
+        else:
+            self.rec.see("recreate-without-listing-read")
         u = self.rng.choice(sorted(self.model.removed))
         if self.ws.get_entity(uuid.UUID(u))[0] is not None:
             raise hist.ExpectedRefusal("still referenced")
@@ -241,7 +246,103 @@ class C06Monitor(hist.Monitor):
             eng.rec.check("C06.dup-file", len(ps) == 1, op="close", cls="/".join(sorted(x.split("/")[0] for x in ps)), attr=stale, detail=f"uid {u} stored as {ps}")
 
 
+def run_recreate_script(case, rec):
+    """An identifier is owned by one kind of entity, freed by a removal, and given to an entity of the same or another kind,
+    with NO workspace listing read in between (listings prune dead registry entries and would hide a stale one)."""
+    import os
+    import shutil
+    import tempfile
+
+    from geoh5py.groups import ContainerGroup
+    from geoh5py.objects import Points
+    from geoh5py.workspace import Workspace
+
+    from ..core import exc_origin
+
+    d = tempfile.mkdtemp(prefix="gvm_")
+    path = os.path.join(d, "w.geoh5")
+    where = f"recreate:{case['old']}->{case['new']}:{case['via']}"
+    uid = uuid.uuid4()
+
+    def make(ws, kind, name, host):
+        if kind == "group":
+            return ContainerGroup.create(ws, name=name, uid=uid)
+        if kind == "object":
+            return Points.create(ws, name=name, vertices=np.zeros((3, 3)), uid=uid)
+        return host.add_data({name: {"values": np.arange(4.0), "uid": uid}})
+
+    try:
+        ws = Workspace.create(path)
+        host = Points.create(ws, name="host", vertices=np.zeros((4, 3)))
+        old = make(ws, case["old"], "old owner", host)
+        rec.check("C06.reuse-free-uid", old is not None and old.uid == uid, op=where, cls=case["old"], attr="first-owner", detail=f"asked for uid {uid}, got {getattr(old, 'uid', None)}")
+        if case["stored"]:
+            del old, host
+            ws.close()
+            ws = Workspace(path, mode="r+")
+            host = ws.get_entity("host")[0]
+            old = ws.get_entity(uid)[0]
+        if case["via"] == "workspace":
+            ws.remove_entity(old)
+        else:
+            old.parent.remove_children([old])
+        del old
+        if case["collect"]:
+            gc.collect()
+        rec.see("reuse-after-removal")
+        rec.see("recreate-without-listing-read")
+        try:
+            new = make(ws, case["new"], "new owner", host)
+        except Exception as exc:  # noqa: BLE001
+            if not exc_origin(exc)[0]:
+                raise
+            # without a collection the removed entity may still be alive through reference cycles: a refusal is then legitimate
+            rec.check("C06.reuse-free-uid", not case["collect"], op=where, cls=case["new"], attr="refused-after-collection", detail=f"re-using the freed uid was refused: {type(exc).__name__}: {exc}")
+            return
+        rec.check("C06.reuse-free-uid", new is not None and new.uid == uid, op=where, cls=case["new"], attr="uid", detail=f"asked for the freed uid {uid}, got {getattr(new, 'uid', None)}")
+        found = ws.get_entity(uid)
+        rec.check("C06.lookup", len(found) == 1 and found[0] is new, op=where, cls=case["new"], attr="by-uid", detail=f"look-up of the identifier returned {[type(x).__name__ for x in found]} instead of its one live owner")
+        byname = [e for e in ws.get_entity("new owner") if e is not None]
+        rec.check("C06.lookup", byname == [new], op=where, cls=case["new"], attr="by-name", detail=f"look-up by name returned {[type(x).__name__ for x in byname]}")
+        try:
+            dup = make(ws, rng_choice(case), "intruder", host)
+            rec.check("C06.dup-accepted", dup is None or dup.uid != uid, op=where, cls=case["new"], attr="second-owner", detail="a second live entity was created with an identifier that has a live owner")
+        except Exception as exc:  # noqa: BLE001
+            if not exc_origin(exc)[0]:
+                raise
+            rec.see("refused-duplicates")
+        owners = [e for k in ("groups", "objects", "data") for e in getattr(ws, k) if e.uid == uid]
+        rec.check("C06.unique", len(owners) == 1 and owners[0] is new, op=where, cls=case["new"], attr="listing", detail=f"{len(owners)} live entities carry the identifier")
+        if case["new"] != "data":
+            cp = new.copy()
+            rec.check("C06.copy-same-ws-uid", cp.uid != uid, op=where, cls=case["new"], attr="", detail="copy inside the same workspace kept the source's identifier")
+        ws.close()
+        raw = snap.raw_snapshot(path)
+        paths = [p for p in raw["nodes"] if str(uid) in p]
+        stale = "stale-node-of-parent-removal" if case["via"] == "parent" and len(paths) > 1 else ""
+        rec.check("C06.dup-file", len(paths) == 1, op="close", cls="/".join(sorted(x.split("/")[0] for x in paths)), attr=stale, detail=f"uid {uid} stored as {paths}")
+        with Workspace(path, mode="r") as fresh:
+            got = fresh.get_entity(uid)
+            rec.check("C06.lookup", len(got) == 1 and got[0] is not None and got[0].name == "new owner", op=where + ":reopen", cls=case["new"], attr="stale-node-of-parent-removal" if case["via"] == "parent" else "by-uid", detail=f"after re-open the identifier resolves to {[(type(x).__name__, getattr(x, 'name', None)) for x in got]}")
+        rec.nontrivial = True
+        rec.shape = ["recreate-script", case["old"], case["new"], case["via"], case["collect"], case["stored"]]
+        rec.sample = {"profile": "recreate-script", "old": case["old"], "new": case["new"], "via": case["via"]}
+    finally:
+        try:
+            ws.close()
+        except Exception:  # noqa: BLE001
+            pass
+        shutil.rmtree(d, ignore_errors=True)
+        gc.collect()
+
+
+def rng_choice(case):
+    return {"group": "object", "object": "data", "data": "group"}[case["new"]]
+
+
 def run_case(case, rec):
+    if case["kind"] == "recreate-script":
+        return run_recreate_script(case, rec)
     rng = random.Random(case["seed"])
     eng = C06Engine(rec, rng, PROP, weights=PROFILES[case["profile"]], monitors=[C06Monitor()], gc_plan=case["gc"], ref_policy=case["refs"], n_ops=case["n_ops"], second_ws=True)
     eng.run()
